@@ -10,6 +10,7 @@ Import ListNotations.
 (* ---- facts about the generated tables, by computation -------------------------------------------------------------- *)
 Lemma marker_fixed : pauli_marker_to_temp = true. Proof. reflexivity. Qed.
 Lemma listified_fixed : str_basis_listified = true. Proof. reflexivity. Qed.
+Lemma rotnorm_fixed : rot_normalised = true. Proof. reflexivity. Qed.
 Lemma passes_ok : passes_complete = true. Proof. vm_compute. reflexivity. Qed.
 Lemma kslices_eq : kinds = kslice 0 ++ kslice 1 ++ kslice 2 ++ kslice 3.
 Proof. reflexivity. Qed.
@@ -160,11 +161,34 @@ Proof.
   destruct (Nat.eqb (length raw1) 2); [left|right; left]; reflexivity.
 Qed.
 
-Lemma parse_in listified b c keep : parse_basis_gen listified b = Ok (c, keep) -> In c all_cfgs.
+Lemma parse_in fl b c keep : parse_basis_gen fl b = Ok (c, keep) -> In c all_cfgs.
 Proof.
   destruct b as [s|l]; cbn [parse_basis_gen].
   - destruct (mem s basis_2q_valid); [|discriminate]. intros H. injection H as <- _. apply mkcfg_in.
-  - destruct (Nat.eqb (length (filter _ l)) 1); [discriminate|]. intros H. injection H as <- _. apply mkcfg_in.
+  - cbv zeta. match goal with |- context [if ?x then Error else _] => destruct x end; [discriminate|].
+    intros H. injection H as <- _. apply mkcfg_in.
+Qed.
+
+(* every configuration the (repaired) parser produces has a consistent rotation part: two or three distinct rotations,
+   elimination exactly when there are two - IDLE entries and repetitions do not count *)
+Lemma rot_cases_ok :
+  forallb (fun r => Nat.eqb (length r) 1 || rot_ok (mkcfg (if Nat.eqb (length r) 0 then default_1q_list else r) []))
+          (sublists rot_norm_list) = true.
+Proof. vm_compute. reflexivity. Qed.
+Lemma rot_str_ok : rot_ok (mkcfg default_1q_str []) = true.
+Proof. vm_compute. reflexivity. Qed.
+Lemma parse_rot_ok b c keep : parse_basis b = Ok (c, keep) -> rot_ok c = true.
+Proof.
+  unfold parse_basis, cur_flags. rewrite rotnorm_fixed. destruct b as [s|l]; cbn [parse_basis_gen f_rotnorm f_listified].
+  - destruct (mem s basis_2q_valid); [|discriminate]. intros H. injection H as <- _. exact rot_str_ok.
+  - cbv zeta. set (raw0 := filter _ l). set (r := filter (fun g => mem g raw0) rot_norm_list).
+    pose proof rot_cases_ok as RC. rewrite forallb_forall in RC. specialize (RC r (filter_sublist _ _)).
+    destruct (Nat.eqb (length r) 1); [discriminate|]. cbn [orb] in RC.
+    intros H. injection H as <- _. exact RC.
+Qed.
+Lemma parse_valid b c keep : parse_basis b = Ok (c, keep) -> c2q c <> [] -> valid_cfg c = true.
+Proof.
+  intros H Hq. unfold valid_cfg. rewrite (parse_rot_ok b c keep H). destruct (c2q c); [contradiction|reflexivity].
 Qed.
 
 (* ---- well-formed source gates --------------------------------------------------------------------------------------- *)
@@ -291,6 +315,11 @@ Proof.
     apply Forall_forall. pose proof (gate_in_basis c keep g x Hc Hv Hg Hx) as F. rewrite forallb_forall in F. exact F.
 Qed.
 
+(* for EVERY accepted request that names a two-qubit gate *)
+Theorem resolve_in_basis_accepted_proof b circ out c keep : Forall wf_gate circ -> parse_basis b = Ok (c, keep) -> c2q c <> [] ->
+  resolve b circ = Ok out -> Forall (fun g => in_basis c g = true) out.
+Proof. intros Hwf E Hq. exact (resolve_in_basis_proof b circ out c keep Hwf E (parse_valid b c keep E Hq)). Qed.
+
 (* ---- a valid request over resolvable gates is not refused (except SQRTSWAP / SQRTISWAP outside the basis) ----------- *)
 Lemma gate_succeeds c keep g : In c all_cfgs -> valid_cfg c = true -> wf_gate g ->
   (gname g = "SQRTSWAP"%string \/ gname g = "SQRTISWAP"%string -> mem (gname g) (c2q c) = true) ->
@@ -321,6 +350,11 @@ Proof.
   destruct (gate_succeeds c keep g Hc Hv Hg Hs) as [x Hx]. destruct (IH Hrest Hsrest) as [y Hy].
   rewrite rflat_cons, Hx, Hy. eexists. reflexivity.
 Qed.
+
+Theorem resolve_succeeds_accepted_proof b circ c keep : Forall wf_gate circ -> parse_basis b = Ok (c, keep) -> c2q c <> [] ->
+  Forall (fun g => gname g = "SQRTSWAP"%string \/ gname g = "SQRTISWAP"%string -> mem (gname g) (c2q c) = true) circ ->
+  exists out, resolve b circ = Ok out.
+Proof. intros Hwf E Hq. exact (resolve_succeeds_proof b circ c keep Hwf E (parse_valid b c keep E Hq)). Qed.
 
 (* ---- refusals ------------------------------------------------------------------------------------------------------ *)
 Lemma stage1_error_resolve_gate c keep g : stage1 c keep g = Error -> resolve_gate c keep g = Error.
@@ -353,12 +387,13 @@ Qed.
 (* what `gate.name in basis` means for the two forms of the basis argument *)
 Lemma keep_str s c keep : parse_basis (BStr s) = Ok (c, keep) -> forall n, keep n = String.eqb n s.
 Proof.
-  unfold parse_basis. rewrite listified_fixed. cbn [parse_basis_gen]. destruct (mem s basis_2q_valid); [|discriminate].
+  unfold parse_basis, cur_flags. rewrite listified_fixed. cbn [parse_basis_gen f_listified]. destruct (mem s basis_2q_valid); [|discriminate].
   intros H n. injection H as _ <-. unfold mem. cbn [existsb]. rewrite orb_false_r. reflexivity.
 Qed.
 Lemma keep_list l c keep : parse_basis (BList l) = Ok (c, keep) -> forall n, keep n = mem n l.
 Proof.
-  unfold parse_basis. cbn [parse_basis_gen]. destruct (Nat.eqb (length (filter _ l)) 1); [discriminate|].
+  unfold parse_basis. cbn [parse_basis_gen]. cbv zeta.
+  match goal with |- context [if ?x then Error else _] => destruct x end; [discriminate|].
   intros H n. injection H as _ <-. reflexivity.
 Qed.
 
@@ -366,9 +401,14 @@ Qed.
 Theorem resolve_invalid_string_proof s circ : mem s basis_2q_valid = false -> resolve (BStr s) circ = Error.
 Proof. intros H. rewrite resolve_unfold. unfold parse_basis. cbn [parse_basis_gen]. rewrite H. reflexivity. Qed.
 
-Theorem resolve_one_rotation_proof l circ :
-  length (filter (fun g => negb (mem g basis_2q_valid) && mem g basis_1q_valid) l) = 1%nat -> resolve (BList l) circ = Error.
-Proof. intros H. rewrite resolve_unfold. unfold parse_basis. cbn [parse_basis_gen]. rewrite H. reflexivity. Qed.
+(* the rotations named by a list basis, each once (IDLE and repetitions are not counted) *)
+Definition rotations_of (l : list string) : list string :=
+  filter (fun g => mem g (filter (fun g => negb (mem g basis_2q_valid) && mem g basis_1q_valid) l)) rot_norm_list.
+Theorem resolve_one_rotation_proof l circ : length (rotations_of l) = 1%nat -> resolve (BList l) circ = Error.
+Proof.
+  intros H. rewrite resolve_unfold. unfold parse_basis, cur_flags. rewrite rotnorm_fixed. cbn [parse_basis_gen f_rotnorm]. cbv zeta.
+  unfold rotations_of in H. rewrite H. reflexivity.
+Qed.
 
 Theorem resolve_rejects_measurement_proof b ops : In OpMeasure ops -> resolve_ops b ops = Error.
 Proof.
